@@ -117,17 +117,33 @@ def check(run):
     sim = lrsim.Sim()
     TYPEWORDS = re.compile(r'\b(typedef|id_t|S|sc|int8_t|uint8_t|int16_t|uint16_t|int32_t)\b')
     replayed, replay_mism, replay_recov = 0, [], 0
+    jb = j.bytes()
+    lexed = {}
+    want = [(cid, text, b'CASE %s fork old' % cid.encode() in jb) for cid, (kind, text) in srcs.items() if (kind.startswith('part ') or kind == 'xta') and rr[cid]['status'] == 'ok' and not TYPEWORDS.search(text)]
+    for (cid, text, old), toks in zip(want, sim.lex_many([(text, not old, False) for cid, text, old in want])):
+        lexed[cid] = (old, toks)
+    if want and getattr(sim, 'drv', None) is None:
+        run.tie_broken('extraction of the scanner model (LexModel.v)', getattr(sim, 'drv_err', ''))
+    prelude_calls = []
+    try:
+        ptoks = sim.lex_many([(lrsim.prelude_text(), True, False)])[0]
+        prelude_calls, pout = sim.run(lrsim.START[1][0], ptoks) if ptoks else ([], 'none')
+        if pout != 'accept':
+            run.tie_broken('replay of the built-in declarations of parser.y', dict(outcome=pout))
+    except RuntimeError as e:
+        run.tie_broken('reader of utap_builtin_declarations()', str(e))
     for cid, (kind, text) in srcs.items():
         c = rr[cid]
         for cc in c['cmds']:
             ncalls += validate_trace(cc[2], viol, seen)
-        if kind.startswith('part ') and c['status'] == 'ok' and not TYPEWORDS.search(text):
-            part = int(kind.split()[1])
-            old = b'CASE %s fork old' % cid.encode() in j.bytes()
-            toks = sim.lex(text, newxta=not old)
+        if cid in lexed:
+            part = int(kind.split()[1]) if kind.startswith('part ') else 0
+            old, toks = lexed[cid]
             if toks is None or any(t[0] == 'T_ERROR' for t in toks):
                 continue
             model_calls, outcome = sim.run(lrsim.START[part][1 if old else 0], toks)
+            if kind == 'xta' and not old:
+                model_calls = prelude_calls + model_calls            # parse_XTA parses the built-in declarations first
             real_calls = [l.split()[1] for cc in c['cmds'] if cc[0] == 'TRACE' for l in cc[2] if l.startswith('T ')]
             threw = any(l.split()[-1] == '1' for cc in c['cmds'] if cc[0] == 'TRACE' for l in cc[2] if l.startswith('T ')) or any(l.startswith('EXC') for cc in c['cmds'] for l in cc[2])
             replayed += 1
